@@ -184,11 +184,11 @@ package main
 
 // What is reported: 0 <= read <= recv <= seq in every description sent out.
 //@ func (t *Topic) replyGetDesc(sess *Session, asUid types.Uid, asChan bool, opts *MsgGetOpts, msg *ClientComMessage) (err error)
-//@   requires [C09] t != nil && sess != nil && msg != nil
+//@   requires [C09,C08] t != nil && sess != nil && msg != nil
 // (read <= recv is deliberately NOT assumed of the cached marks here: the store can hold read > recv - see the known
 // finding on handleNoteBroadcast - and a reload copies stored marks into the cache; the report must be sane anyway)
-//@   requires [C09] t.lastID >= 0 && ((asUid in t.perUser) ==> 0 <= t.perUser[asUid].readID && t.perUser[asUid].readID <= t.lastID && 0 <= t.perUser[asUid].recvID && t.perUser[asUid].recvID <= t.lastID)
-//@   assert at call queueOut [C09] reported_marks: $1 != nil && $1.Meta != nil && $1.Meta.Desc != nil ==> 0 <= $1.Meta.Desc.ReadSeqId && $1.Meta.Desc.ReadSeqId <= $1.Meta.Desc.RecvSeqId && $1.Meta.Desc.RecvSeqId <= $1.Meta.Desc.SeqId
+//@   requires [C09,C08] t.lastID >= 0 && ((asUid in t.perUser) ==> 0 <= t.perUser[asUid].readID && t.perUser[asUid].readID <= t.lastID && 0 <= t.perUser[asUid].recvID && t.perUser[asUid].recvID <= t.lastID)
+//@   assert at call queueOut [C09,C08] reported_marks: $1 != nil && $1.Meta != nil && $1.Meta.Desc != nil ==> 0 <= $1.Meta.Desc.ReadSeqId && $1.Meta.Desc.ReadSeqId <= $1.Meta.Desc.RecvSeqId && $1.Meta.Desc.RecvSeqId <= $1.Meta.Desc.SeqId
 //@   modifies inferred
 
 // ---------------------------------------------------------------------------------------------
@@ -395,6 +395,9 @@ package main
 //@   ensures [C07] p2p_modes: t.cat == types.TopicCatP2P && (asUid in t.perUser) && t.perUser[asUid].modeWant != old(t.perUser[asUid].modeWant) ==> (t.perUser[asUid].modeWant & ^types.ModeCP2P) == 0 && (t.perUser[asUid].modeWant & types.ModeApprove) != 0
 //@   assert at call store.SubsPersistenceInterface.Create [C07] limit: t.cat == types.TopicCatGrp && !asChan && !old(asUid in t.perUser) ==> len(t.perUser) < globals.maxSubscriberCount
 //@   ensures [C10] online_not_raised: forall u types.Uid :: (u in t.perUser) && old(u in t.perUser) ==> t.perUser[u].online <= old(t.perUser[u].online) || t.perUser[u].online == 0
+// (a subscriber whose grant lacks J is answered 403 only after the requested change has been applied: known finding)
+//@   ensures [C08] failed_changes_nothing: err != nil && !old((asUid in t.perUser) && !t.perUser[asUid].deleted && !hasJ(t.perUser[asUid].modeGiven)) ==> t.owner == old(t.owner) && (forall u types.Uid :: (u in t.perUser) == old(u in t.perUser) && ((u in t.perUser) ==> t.perUser[u].modeWant == old(t.perUser[u].modeWant) && t.perUser[u].modeGiven == old(t.perUser[u].modeGiven) && t.perUser[u].private == old(t.perUser[u].private)))
+//@   ensures [C08] banned_request_changes_nothing: err != nil && old((asUid in t.perUser) && !t.perUser[asUid].deleted && !hasJ(t.perUser[asUid].modeGiven)) ==> t.owner == old(t.owner) && (forall u types.Uid :: (u in t.perUser) == old(u in t.perUser) && ((u in t.perUser) ==> t.perUser[u].modeWant == old(t.perUser[u].modeWant) && t.perUser[u].modeGiven == old(t.perUser[u].modeGiven) && t.perUser[u].private == old(t.perUser[u].private)))
 //@   ensures [C07] sys_root_only: t.cat == types.TopicCatSys && !old((asUid in t.perUser) && !t.perUser[asUid].deleted) && pkt.AuthLvl != int(auth.LevelRoot) ==> err != nil && (asUid in t.perUser) == old(asUid in t.perUser)
 
 // {set sub} / invite / approval acting on another user's subscription.
@@ -415,6 +418,7 @@ package main
 //@   ensures [C07] p2p_modes: t.cat == types.TopicCatP2P && old(pkt.Set.Sub.Mode) != "" && (target in t.perUser) && t.perUser[target].modeGiven != old(t.perUser[target].modeGiven) ==> (t.perUser[target].modeGiven & ^types.ModeCP2P) == 0 && (t.perUser[target].modeGiven & types.ModeApprove) != 0
 //@   ensures [C07] p2p_default_invite: t.cat == types.TopicCatP2P && old(pkt.Set.Sub.Mode) == "" && (target in t.perUser) && t.perUser[target].modeGiven != old(t.perUser[target].modeGiven) ==> (t.perUser[target].modeGiven & ^types.ModeCP2P) == 0 && (t.perUser[target].modeGiven & types.ModeApprove) != 0
 //@   ensures [C07] no_channel_promotion: asChan ==> err != nil
+//@   ensures [C08] failed_changes_nothing: err != nil ==> t.owner == old(t.owner) && (forall u types.Uid :: (u in t.perUser) == old(u in t.perUser) && ((u in t.perUser) ==> t.perUser[u].modeWant == old(t.perUser[u].modeWant) && t.perUser[u].modeGiven == old(t.perUser[u].modeGiven)))
 //@   assert at call store.SubsPersistenceInterface.Create [C07] limit: t.cat == types.TopicCatGrp ==> len(t.perUser) < globals.maxSubscriberCount
 
 // {del sub}: an administrator removes somebody else's subscription - never the owner's.
@@ -470,6 +474,10 @@ package main
 //@   modifies inferred
 //@   ensures [C06] desc_owner_only: t.cat == types.TopicCatGrp && old(t.owner) != asUid ==> t.accessAuth == old(t.accessAuth) && t.accessAnon == old(t.accessAnon) && t.public == old(t.public) && t.trusted == old(t.trusted)
 //@   assert at call store.TopicsPersistenceInterface.Update [C06] desc_store_owner_only: t.cat == types.TopicCatGrp ==> t.owner == asUid
+//@   ensures [C08] failed_changes_nothing: err != nil ==> t.public == old(t.public) && t.trusted == old(t.trusted) && t.accessAuth == old(t.accessAuth) && t.accessAnon == old(t.accessAnon) && ((asUid in t.perUser) ==> t.perUser[asUid].private == old(t.perUser[asUid].private))
+//@   ensures [C08] cache_follows_store_public: err == nil && (t.cat == types.TopicCatMe || t.cat == types.TopicCatGrp) && ("Public" in core) ==> t.public == core["Public"]
+//@   ensures [C08] cache_follows_store_trusted: err == nil && (t.cat == types.TopicCatMe || t.cat == types.TopicCatGrp) && ("Trusted" in core) ==> t.trusted == core["Trusted"]
+//@   ensures [C08] untouched_without_update: err == nil && !("Public" in core) && t.cat != types.TopicCatFnd ==> t.public == old(t.public)
 
 // {set sub}: a request naming the requester (or nobody) acts on the requester's own subscription, any other on the
 // target's; whoever is neither is not touched.
